@@ -428,6 +428,22 @@ k2("K166", "C10", [("client/inflight.go", "\tif inFlight, err = h.addInFlight(st
    ("client/inflight.go", "func (h *inFlightRequestsHandler) addInFlight(streamId int16, managedStreamId bool) (*inFlightRequest, error) {\n\tinFlight := newInFlightRequest(h.String(), streamId, managedStreamId, h.ctx, h.maxPending, h.timeout)", "func (h *inFlightRequestsHandler) maxPendingFor(f *frame.Frame) int {\n\tif f.Body != nil {\n\t\tif query, ok := f.Body.Message.(*message.Query); ok && query.Options != nil && query.Options.ContinuousPagingOptions != nil {\n\t\t\treturn h.maxPending\n\t\t}\n\t}\n\treturn 1\n}\n\nfunc (h *inFlightRequestsHandler) addInFlight(streamId int16, managedStreamId bool, maxPending int) (*inFlightRequest, error) {\n\tinFlight := newInFlightRequest(h.String(), streamId, managedStreamId, h.ctx, maxPending, h.timeout)")],
   "pending-capacity:inFlightRequest.incoming", "buffer sized per request kind; EXECUTE with continuous paging forgotten")
 
+# ---- rules added after the third round of seeded changes
+k("K167", "C01", "message/error.go", "\t\tif msg.WriteType == primitive.WriteTypeCas && version.SupportsWriteTimeoutContentions() {", "\t\tif msg.WriteType == primitive.WriteTypeCas && version >= primitive.ProtocolVersion5 {",
+  "enc-vs-dec:errorCodec@D1 [p0.(*message.WriteTimeout).WriteType=\"CAS\"]", "decoder reads a field for a value the encoder never looked at (reader-driven case split)")
+k("K168", "C01", "primitive/string_list.go", "\tif length < 0 {\n\t\treturn nil, nil", "\tif int16(length) < 0 {\n\t\treturn nil, nil",
+  "primitive-pairing:stringlist", "string lists of 32768+ elements read back as nil")
+k("K169", "C02", "primitive/bytes.go", "\t} else if length < 0 {\n\t\treturn nil, nil", "\t} else if length == -1 {\n\t\treturn nil, nil\n\t} else if length < 0 {\n\t\treturn nil, fmt.Errorf(\"invalid [bytes] length: %d\", length)",
+  "primitive-layout:bytes", "negative lengths other than -1 rejected although the specification defines them as null")
+k("K170", "C08", "compression/lz4/lz4.go", "\tfor i := compressedLength * 2; i < compressedLength*maxCompressionRatio*2; i *= 2 {", "\tfor i := compressedLength * 2; i < compressedLength*maxCompressionRatio*2 && i <= 1<<17; i *= 2 {",
+  "lz4-sizing:compression/lz4.decompress UncompressBlock#1", "growth cut short by a second size test")
+k("K171", "C08", "compression/snappy/snappy.go", "\t} else {\n\t\tcompressedMessage := snappy.Encode(nil, uncompressedMessage.Bytes())", "\t} else if uncompressedMessage.Len() == 0 {\n\t\treturn nil\n\t} else {\n\t\tcompressedMessage := snappy.Encode(nil, uncompressedMessage.Bytes())",
+  "compress-writes:(compression/snappy.Compressor).CompressWithLength", "nothing written for the empty input")
+k("K172", "C06", "segment/encode.go", "\t\treturn fmt.Errorf(\"cannot compress segment payload: %w\", err)\n\t} else {", "\t\treturn fmt.Errorf(\"cannot compress segment payload: %w\", err)\n\t} else if compressedPayload.Len() > MaxPayloadLength {\n\t\treturn fmt.Errorf(\"compressed payload length exceeds maximum allowed: %v\", compressedPayload.Len())\n\t} else {",
+  "only-refusal:(*segment.codec).encodeSegmentCompressed", "incompressible near-maximum payloads refused")
+k("K173", "C09", "client/inflight.go", "\tif f.Header.OpCode == primitive.OpCodeResult {\n\t\tresult := f.Body.Message.(message.Result)", "\tif f.Header.Version.SupportsDseRevisionType(primitive.DseRevisionTypeMoreContinuousPages) && f.Header.OpCode == primitive.OpCodeResult {\n\t\tresult := f.Body.Message.(message.Result)",
+  "last-frame:isLastFrame@D1", "last-frame detection gated by a version predicate that excludes DSE v1")
+
 
 json.dump(C, open(os.path.join(os.path.dirname(os.path.abspath(__file__)), "controls.json"), "w"), indent=1)
 print(len(C), "controls")
